@@ -20,7 +20,7 @@ RULE = ("metamorphic pairs on the real code. At Q (exact equality of rationals):
 PARTIAL = ["spline, proved end to end (assembly + solve + evaluation) for every non-periodic boundary pair: data x c (C15_spline_scale_data), "
            "superposition (C15_spline_add), common shift (C15_spline_shift), axis x c>0 with converted boundary values (C15_spline_scale_axis, "
            "by uniqueness C03_unique); Periodic boundary with n >= 4: C15_periodic_scale_data / _add / _shift / _scale_axis (slopes; by "
-           "uniqueness of the periodic spline); not stated as theorems: the 3-point Periodic closed form under these maps (exact metamorphic runs)",
+           "uniqueness of the periodic spline); 3-point Periodic: C15_periodic3_scale_data / _add / _shift / _scale_axis on the closed form",
            "bit-for-bit at f64 rests on exact power-of-two scaling absent over/underflow (C15_hom_linear_data states the data-flow part)"]
 ASSUMPTIONS = ["no overflow/underflow for the f64 bitwise runs (magnitudes kept moderate)"]
 
